@@ -133,6 +133,8 @@ pub struct PeerOut {
     pub predicted_corrected: u64,
     pub sticky2: u64,
     pub lockstep_stalls: u64,
+    /// calls of the lockstep wait helper during which a packet arrived after the helper's first poll
+    pub midwait_deliveries: u64,
     pub fa_samples: Vec<(i32, i32)>,
     /// (ms since start, handle, Ok(ping, local_behind, remote_behind, sendq) | Err(code))
     pub stats_samples: Vec<(u64, usize, Result<(u128, i32, i32, usize), u8>)>,
@@ -989,6 +991,7 @@ fn tick_peer<I: HInp, P: InputPredictor<I> + 'static>(
     }
     pe.out.calls += 1;
     let use_wait = pe.use_wait;
+    let calls0 = if use_wait { net.borrow().recv_calls(peer_addr(p)) } else { 0 };
     let res = catch_unwind(AssertUnwindSafe(|| {
         if use_wait {
             // all three entry points of the lockstep wait helper, in rotation
@@ -1005,6 +1008,13 @@ fn tick_peer<I: HInp, P: InputPredictor<I> + 'static>(
         }
     }));
     verif_hooks::clock::set_auto_tick_micros(0);
+    if use_wait {
+        let n = net.borrow();
+        let calls1 = n.recv_calls(peer_addr(p));
+        if calls1 > calls0 + 1 && n.delivered_in_calls(peer_addr(p), calls0 + 1, calls1) {
+            pe.out.midwait_deliveries += 1;
+        }
+    }
     let res = match res {
         Ok(r) => r,
         Err(_) => {
@@ -1060,6 +1070,10 @@ fn tick_peer<I: HInp, P: InputPredictor<I> + 'static>(
                         viols.push(Viol { prop: "C04", clause: "C04.lockstep_stall".into(), msg: "lockstep call simulated a frame without advancing current_frame()".into(), node: node.clone(), tick });
                     }
                 }
+            }
+            if mp == 0 && d != 0 && advs.is_empty() {
+                // the stalled call of the property: no AdvanceFrame was handed out, so the frame must not move
+                viols.push(Viol { prop: "C04", clause: "C04.lockstep_stall_moved".into(), msg: format!("lockstep call returned no AdvanceFrame (a stall) but current_frame() moved {before} -> {cur}"), node: node.clone(), tick });
             }
             // ---- C04: speculation bound for first simulations
             {
@@ -1234,6 +1248,10 @@ fn tick_peer<I: HInp, P: InputPredictor<I> + 'static>(
             after_call(pe, half);
         }
         Err(e) => {
+            let cur = s.current_frame();
+            if cur != before {
+                viols.push(Viol { prop: "C02", clause: "C02.err_moved".into(), msg: format!("advance_frame returned {e:?} (no requests) but current_frame() moved {before} -> {cur}: the game is left behind"), node: node.clone(), tick });
+            }
             viols.push(Viol { prop: "C16", clause: "advance_frame_valid".into(), msg: format!("advance_frame with all inputs present returned {e:?}"), node, tick });
             after_call(pe, half);
         }
